@@ -14,7 +14,44 @@ func sp(s string) *string { return &s }
 // unspecified (may be accepted or refused).
 func (e *Env) genCorruption(op model.Op) *Corruption {
 	t := e.T
-	switch t.Choice(16) {
+	switch t.Choice(19) {
+	case 16:
+		// the whole request arrives, then the connection breaks
+		return &Corruption{Kind: "body-then-reset", Class: "unspecified", BodyErr: true}
+	case 17:
+		// part of the request arrives, then the connection breaks
+		cut := t.Choice(64)
+		return &Corruption{Kind: "body-cut-then-reset", Class: "ill-formed", BodyErr: true, Body: func(b []byte) []byte {
+			if len(b) == 0 {
+				return b
+			}
+			return b[:cut%len(b)]
+		}}
+	case 18:
+		// someone else's complete request, padded beyond any sane size limit
+		// or cut off by a broken connection
+		nm := e.Names[t.Choice(len(e.Names))]
+		pj, _ := json.Marshal(map[string]any{"Name": nm, "Value": []byte("planted"), "Version": 1})
+		planted := string(pj)
+		big := t.Bool(1, 4)
+		// what the request means if the server takes it
+		eff := model.Op{Kind: op.Kind, Name: nm}
+		switch op.Kind {
+		case model.OpList:
+			eff.Name = ""
+		case model.OpGet, model.OpGetVersion, model.OpGetIfChanged:
+			eff.Kind, eff.Version = model.OpGetVersion, 1
+		case model.OpActivate, model.OpDeleteVersion:
+			eff.Version = 1
+		case model.OpPut:
+			eff.Value = []byte("planted")
+		}
+		return &Corruption{Kind: "body-foreign", Class: "unspecified", Eff: &eff, BodyErr: !big, Body: func([]byte) []byte {
+			if big {
+				return append([]byte(planted), bytes.Repeat([]byte{' '}, 5<<20)...)
+			}
+			return []byte(planted)
+		}}
 	case 0:
 		m := []string{"GET", "PUT", "DELETE", "HEAD", "PATCH", "OPTIONS"}[t.Choice(6)]
 		return &Corruption{Kind: "method-" + m, Class: "ill-formed", Method: m}
